@@ -727,6 +727,311 @@ theorem alias_when_asked :
   revert this
   decide
 
+/-! ## 5. the enumeration of copies and selections is complete
+
+`IsCopyOp`, `CopiesInto` and `selections_share` list constructors by hand.  `docKind` classifies
+**every** constructor of `Op` by what the docstrings of `structure.py` say about the atoms of the
+result; the `…_all` theorems quantify over a whole class, so nothing documented as a copy or as a
+selection can be missing from an enumeration (a new constructor of `Op` does not compile until it is
+classified). -/
+
+inductive DocKind
+  /-- returns a new Structure documented as a copy: `copy()`/`Structure(s)`, `+`, `-`, `*`, pickling, `deepcopy` -/
+  | copyNew
+  /-- puts *copies* of the given atoms into the target: `append`/`insert` (default or `copy=True`),
+  `extend(copy=True)`, `extend(<Structure>)`, `+=`, `*=`, `s[i] = a`, `s[i:j:k] = …` (default flag) -/
+  | copyInto
+  /-- indexing: a selection that shares atoms and lattice, or the member atom itself -/
+  | selection
+  /-- puts the given atom objects themselves into the target: `copy=False`, `extend` with the
+  default flag and an iterable that is not a Structure, `Structure(<iterable>)` -/
+  | shareInto
+  /-- only rearranges / removes members: `del`, `pop`, `remove`, `reverse`, `sort`, `clear`, `-=` -/
+  | rearrange
+  /-- creates a free atom / an empty structure / a new member atom, assigns a lattice, forgets a structure -/
+  | other
+  deriving DecidableEq, Repr
+
+def docKind : Op → DocKind
+  | .mkAtom _ => .other
+  | .mkStru => .other
+  | .addNew _ _ => .other
+  | .append _ _ c => if c = .no then .shareInto else .copyInto
+  | .insert _ _ _ c => if c = .no then .shareInto else .copyInto
+  | .extend _ it c => match c, it with
+    | .yes, _ => .copyInto
+    | .no, _ => .shareInto
+    | .dflt, .stru _ => .copyInto
+    | .dflt, _ => .shareInto
+  | .getitem _ _ => .selection
+  | .setitem _ _ _ c => if c then .copyInto else .shareInto
+  | .setslice _ _ _ c => if c then .copyInto else .shareInto
+  | .delitem _ _ => .rearrange
+  | .delslice _ _ => .rearrange
+  | .add _ _ => .copyNew
+  | .iadd _ _ => .copyInto
+  | .sub _ _ => .copyNew
+  | .isub _ _ => .rearrange
+  | .mul _ _ => .copyNew
+  | .imul _ _ => .copyInto
+  | .copy _ => .copyNew
+  | .pickle _ _ => .copyNew
+  | .deepcopy _ => .copyNew
+  | .setLat _ _ => .other
+  | .pop _ _ => .rearrange
+  | .remove _ _ => .rearrange
+  | .reverse _ => .rearrange
+  | .sort _ => .rearrange
+  | .clear _ => .rearrange
+  | .drop _ => .other
+  | .ctor src _ => match src with
+    | none => .other
+    | some (.stru _) => .copyNew
+    | some _ => .shareInto
+
+/-- the structure an in-place operation edits -/
+def opTarget : Op → Option Nat
+  | .append h _ _ | .insert h _ _ _ | .extend h _ _ | .setitem h _ _ _ | .setslice h _ _ _
+  | .iadd h _ | .imul h _ | .isub h _ | .delitem h _ | .delslice h _ | .pop h _ | .remove h _
+  | .reverse h | .sort h | .clear h | .addNew h _ => some h
+  | _ => none
+
+/-- the hand-written enumeration of copy operations is complete: together with copy construction it is
+exactly the class `copyNew` -/
+theorem docKind_copyNew_iff (op : Op) :
+    docKind op = .copyNew ↔ IsCopyOp op ∨ ∃ h lat, op = .ctor (some (.stru h)) lat := by
+  constructor
+  · intro h
+    cases op <;> simp only [docKind] at h <;> try (first | exact Or.inl (by constructor) | cases h)
+    all_goals (first
+      | (split at h <;> cases h)
+      | skip)
+    all_goals (first
+      | (rename_i c it; cases c <;> cases it <;> simp at h)
+      | skip)
+    case ctor src lat =>
+      cases src with
+      | none => simp at h
+      | some it => cases it <;> first | exact Or.inr ⟨_, _, rfl⟩ | simp at h
+  · rintro (h | ⟨h, lat, rfl⟩)
+    · cases h <;> rfl
+    · rfl
+
+/-- the lattice object a copy operation must return: a new one, unless the constructor was given the
+lattice of a live structure -/
+def sharesLatticeWith : Op → Option Nat
+  | .ctor _ (some (.ofStru h')) => some h'
+  | _ => none
+
+/-- **copies_disjoint_all**: *every* operation documented to return a copy (class `copyNew` — `copy`,
+`+`, `-`, `*`, pickling with any protocol, `deepcopy`, and copy construction with any `lattice=` /
+`title=` argument) returns the next handle; none of its atoms existed before (in any structure, live or
+not, or as a free atom), and its lattice object is none of the earlier ones — except that
+`Structure(s, lattice=t.lattice)` refers, as asked, to the lattice of `t` -/
+theorem copies_disjoint_all {w : World} (hw : Wf w) {op : Op} (hk : docKind op = .copyNew) {r : Nat}
+    (hok : (w.stepFull op).2 = .ok (.stru r)) :
+    r = w.strus.length ∧
+    (∀ a ∈ (w.stepFull op).1.atomsOf r, w.nextA ≤ a ∧ (∀ s ∈ w.strus, a ∉ s.atoms) ∧ a ∉ w.pool) ∧
+    (match sharesLatticeWith op with
+     | none => (w.stepFull op).1.latOf r = w.nextL ∧ ∀ s ∈ w.strus, s.lat ≠ (w.stepFull op).1.latOf r
+     | some h' => (w.stepFull op).1.latOf r = w.latOf h') := by
+  have fresh : ∀ a, w.nextA ≤ a → w.nextA ≤ a ∧ (∀ s ∈ w.strus, a ∉ s.atoms) ∧ a ∉ w.pool := by
+    intro a ha
+    exact ⟨ha, fun s hs hin => by have := hw.atoms s hs a hin; omega, fun hin => by have := hw.pool a hin; omega⟩
+  have newlat : ∀ L, L = w.nextL → ∀ s ∈ w.strus, s.lat ≠ L := by
+    intro L hL s hs heq
+    have := hw.lats s hs
+    omega
+  rcases (docKind_copyNew_iff op).mp hk with hc | ⟨h, lat, rfl⟩
+  · obtain ⟨h1, h2, h3⟩ := copies_fresh hc hok
+    have hs : sharesLatticeWith op = none := by cases hc <;> rfl
+    rw [hs]
+    exact ⟨h1, fun a ha => fresh a (h2 a ha), h3, newlat _ h3⟩
+  · obtain ⟨h1, h2, h3⟩ := ctor_copies_fresh hok
+    refine ⟨h1, fun a ha => fresh a (h2 a ha), ?_⟩
+    cases lat with
+    | none => exact ⟨h3, newlat _ h3⟩
+    | some l =>
+      cases l with
+      | fresh => exact ⟨h3, newlat _ h3⟩
+      | ofStru h' => exact h3
+
+/-- the hand-written enumeration `CopiesInto` plus slice assignment with the default flag is exactly
+the class `copyInto` -/
+theorem docKind_copyInto_iff (op : Op) :
+    docKind op = .copyInto ↔
+      (∃ h, CopiesInto op h) ∨ ∃ h sl it, op = .setslice h sl it true := by
+  constructor
+  · intro h
+    cases op <;> simp only [docKind] at h
+    case append hh a c => cases c <;> first | exact Or.inl ⟨_, by constructor⟩ | simp at h
+    case insert hh i a c => cases c <;> first | exact Or.inl ⟨_, by constructor⟩ | simp at h
+    case extend hh it c =>
+      cases c
+      · cases it <;> first | exact Or.inl ⟨_, by constructor⟩ | simp at h
+      · exact Or.inl ⟨_, .extendY _ _⟩
+      · simp at h
+    case setitem hh i a c => cases c <;> first | exact Or.inl ⟨_, by constructor⟩ | simp at h
+    case setslice hh sl it c => cases c <;> first | exact Or.inr ⟨_, _, _, rfl⟩ | simp at h
+    case iadd hh it => exact Or.inl ⟨_, .iadd _ _⟩
+    case imul hh n => exact Or.inl ⟨_, .imul _ _⟩
+    case ctor src lat =>
+      cases src with
+      | none => simp at h
+      | some it => cases it <;> simp at h
+    all_goals cases h
+  · rintro (⟨h, hc⟩ | ⟨h, sl, it, rfl⟩)
+    · cases hc <;> rfl
+    · rfl
+
+theorem copiesInto_target {op : Op} {h : Nat} (hc : CopiesInto op h) : opTarget op = some h := by
+  cases hc <;> rfl
+
+/-- **inserted_copies_fresh_all**: after *every* operation documented to insert copies (class
+`copyInto`, slice assignment with the default flag included), whatever the target holds was a member
+before or is a freshly allocated copy — the caller's atom objects are never inserted.  (A slice
+assignment keeps the members of the assigned slice that the value lists; they were members.) -/
+theorem inserted_copies_fresh_all {w : World} (hw : Wf w) {op : Op} (hk : docKind op = .copyInto) {h : Nat}
+    (ht : opTarget op = some h) :
+    ∀ a ∈ (w.stepFull op).1.atomsOf h, a ∈ w.atomsOf h ∨ w.nextA ≤ a := by
+  rcases (docKind_copyInto_iff op).mp hk with ⟨h', hc⟩ | ⟨h', sl, it, rfl⟩
+  · have := copiesInto_target hc
+    rw [ht] at this
+    cases this
+    exact inserted_copies_fresh hw hc
+  · simp only [opTarget, Option.some.injEq] at ht
+    subst ht
+    intro a ha
+    rcases hp : planG w.view (.setslice h' sl it true) with e | act
+    · simp only [World.stepFull, hp] at ha; exact Or.inl ha
+    · simp only [planG] at hp
+      rcases h1 : w.view.atoms h' with e | old
+      · simp [h1] at hp
+      · rcases h2 : w.view.iter it with e | ⟨xs, b⟩
+        · simp [h1, h2] at hp
+        · rcases h3 : sliceAdjust old.length sl with e | sa
+          · simp [h1, h2, h3] at hp
+          · simp only [h1, h2, h3, if_true, Except.ok.injEq] at hp
+            subst hp
+            have hp' : planG w.view (.setslice h' sl it true) = .ok (.plan
+                { tgt := .old h', pre := none, inc := xs,
+                  flags := xs.map (fun x => decide (x ∉ pick old (sliceIdx sa))), edit := .setSlice sl }) := by
+              simp only [planG, h1, h2, h3, if_true]
+            simp only [World.stepFull, hp', World.exec] at ha
+            rcases World.execPlan_old_mem w _ h' rfl a ha with g | g | g
+            · exact Or.inl g
+            · -- an atom taken over uncopied is a member of the assigned slice
+              have := (World.keptOf_map xs (fun x => decide (x ∉ pick old (sliceIdx sa))) a g).2
+              simp only [decide_eq_false_iff_not, Decidable.not_not] at this
+              rw [(World.view_atoms_ok h1).1]
+              exact Or.inl (pick_subset _ _ a this)
+            · exact Or.inr g
+
+/-- the positions an index expression selects: one member (`s[i]`, `s["label"]`) or a list of
+positions, in order, repetitions kept (slice, index array, mask, tuple, list of keys) -/
+inductive Sel | one (k : Nat) | many (idxs : List Nat)
+  deriving DecidableEq, Repr
+
+def selPositions (lab : Nat → Nat) (old : List Nat) : Index → Except Err Sel
+  | .int i => match normIdx old.length i with
+    | some k => .ok (.one k)
+    | none => .error .index
+  | .slice sl => match sliceAdjust old.length sl with
+    | .error e => .error e
+    | .ok a => .ok (.many (sliceIdx a))
+  | .arr is => match mapE (normIdxE old.length) is with
+    | .error e => .error e
+    | .ok idxs => .ok (.many idxs)
+  | .mask bs => if bs.length ≠ old.length ∧ bs ≠ [] then .error .index else .ok (.many (trueIdx bs 0))
+  | .label p => match findLabel lab old p with
+    | .error e => .error e
+    | .ok k => .ok (.one k)
+  | .tuple ks =>
+    if ks = [] then .error .value else
+    match mapE (resolveKey lab old) ks with
+    | .error e => .error e
+    | .ok is => match mapE (normIdxE old.length) is with
+      | .error e => .error e
+      | .ok idxs => .ok (.many idxs)
+  | .keys ks =>
+    match mapE (resolveKey lab old) ks with
+    | .error e => .error e
+    | .ok is => match mapE (normIdxE old.length) is with
+      | .error e => .error e
+      | .ok idxs => .ok (.many idxs)
+
+/-- the planner's treatment of an index expression, in terms of the selected positions -/
+theorem planIndex_eq (v : View Nat) (h : Nat) (old : List Nat) (ix : Index) :
+    planIndex v h old ix = (match selPositions v.lab old ix with
+      | .error e => .error e
+      | .ok (.one k) => (match old[k]? with
+        | some a => .ok (.retAtom a h)
+        | none => .error .index)
+      | .ok (.many idxs) => .ok (selPlan h (pick old idxs))) := by
+  cases ix <;> simp only [planIndex, selPositions] <;> (repeat' split) <;> simp_all
+
+/-- every operation of class `selection` is an indexing operation -/
+theorem docKind_selection_iff (op : Op) : docKind op = .selection ↔ ∃ h ix, op = .getitem h ix := by
+  constructor
+  · intro h
+    cases op <;> simp only [docKind] at h
+    case getitem hh ix => exact ⟨_, _, rfl⟩
+    case append hh a c => cases c <;> simp at h
+    case insert hh i a c => cases c <;> simp at h
+    case extend hh it c => cases c <;> cases it <;> simp at h
+    case setitem hh i a c => cases c <;> simp at h
+    case setslice hh sl it c => cases c <;> simp at h
+    case ctor src lat =>
+      cases src with
+      | none => simp at h
+      | some it => cases it <;> simp at h
+    all_goals cases h
+  · rintro ⟨h, ix, rfl⟩; rfl
+
+/-- **selections_share_all**: for *every* index form — integer, slice (any step), index array, boolean
+mask, label, tuple, list of keys — indexing a live structure either raises without changing anything,
+or returns the member atom object itself without changing anything (`s[i]`, `s["label"]`), or returns
+the next handle: a structure that refers to the *same* lattice object as its source and whose member
+list is **exactly** the selected members, in the order and with the repetitions of the index. -/
+theorem selections_share_all (w : World) {h : Nat} {old : List Nat} (h1 : w.view.atoms h = .ok old) (ix : Index) :
+    match selPositions w.pay old ix with
+    | .error e => w.stepFull (.getitem h ix) = (w, .error e)
+    | .ok (.one k) => (match old[k]? with
+      | some a => w.stepFull (.getitem h ix) = (w, .ok (.atom a h))
+      | none => w.stepFull (.getitem h ix) = (w, .error .index))
+    | .ok (.many idxs) =>
+      (w.stepFull (.getitem h ix)).2 = .ok (.stru w.strus.length) ∧
+      (w.stepFull (.getitem h ix)).1.atomsOf w.strus.length = pick (w.atomsOf h) idxs ∧
+      (w.stepFull (.getitem h ix)).1.latOf w.strus.length = w.latOf h := by
+  have hp : planG w.view (.getitem h ix) = planIndex w.view h old ix := by simp only [planG, h1]
+  have hat := (World.view_atoms_ok h1).1
+  have hlab : w.view.lab = w.pay := rfl
+  rw [← hlab]
+  have hq := planIndex_eq w.view h old ix
+  rcases hs : selPositions w.view.lab old ix with e | sel
+  · simp only [hs] at hq
+    simp only [World.stepFull, hp, hq]
+  · cases sel with
+    | one k =>
+      simp only [hs] at hq
+      rcases hk : old[k]? with _ | a
+      · simp only [hk] at hq
+        simp only [World.stepFull, hp, hq]
+      · simp only [hk] at hq
+        simp only [World.stepFull, hp, hq, World.exec]
+    | many idxs =>
+      simp only [hs] at hq
+      simp only [World.stepFull, hp, hq, selPlan, World.exec]
+      rw [hat]
+      exact World.execPlan_new_sel w _ h rfl rfl rfl
+
+/-- every constructor of `Op` falls into exactly one class (`docKind` is a total function); the three
+classes the property text speaks about are characterised above -/
+theorem docKind_total (op : Op) :
+    docKind op = .copyNew ∨ docKind op = .copyInto ∨ docKind op = .selection ∨ docKind op = .shareInto ∨
+    docKind op = .rearrange ∨ docKind op = .other := by
+  cases hd : docKind op <;> simp
+
 /-! ## non-vacuity: a concrete history that satisfies every hypothesis used above -/
 
 instance decHistAgree : (w : World) → (ops : List Op) → Decidable (HistAgree w ops)
